@@ -422,6 +422,22 @@ def expectedTotal (iw : List Nat) (chan : List Int) : Res Int :=
   | none => .err "IndexError"
   | some _ => .ok (usedSum (uptoLastBoundary (chan.zip iw)))
 
+/-! ### the property's own wording: which samples make up pixel `j` (index form) -/
+
+/-- number of pixel boundaries strictly before sample `i` = the number of the pixel sample `i` lies in -/
+def pixelOfSample (iw : List Nat) (i : Nat) : Nat := (iw.take i).count 2
+
+/-- total count of the samples that are not flagged discard and lie in pixel `j` -/
+def assignedRaw (data : List Int) (iw : List Nat) (j : Nat) : Int :=
+  ((List.range iw.length).map fun i =>
+    if iw.getD i 0 ≠ 0 ∧ pixelOfSample iw i = j then data.getD i 0 else 0).sum
+
+/-- pixel `j` in the property's words: the sum of the photon counts of exactly the samples the info wave assigns to
+    it (not discarded, `j` boundaries before them), provided the pixel is completed (`j` < number of boundaries) -/
+def assignedSum (data : List Int) (iw : List Nat) (j : Nat) : Int :=
+  if j < iw.count 2 then assignedRaw data iw j else 0
+
+
 /-! ### answers computed from scratch (no object state) -/
 
 /-- `get_image("rgb")` as a function of the three colour images. -/
@@ -496,6 +512,7 @@ def axes? (fa fp sa sp : String) : Option Axes := do
                                          red, green, blue; 3 = `get_image("rgb")`; 4 = `Kymo.shape`
   `c02.kymoseqoff …` / `c02.scanseqoff …` (arguments of `kymoseq` / `scanseq`) the object's start after the sequence, as
                                          a sample index into the info wave (`ObjState.off` of `stateAfter`)
+  `c02.assigned [data] [iw] [shape…]`    like `c02.sum`, every pixel computed by the index formula `assignedSum`
   `c02.regwave lead k d P n`             the regular info wave (`regWave`) and where `seek_timestamp_next_line` lands on it
   `c02.regafter lead k d P n [red]`      the image of a colour covering the whole wave, minus its first line of pixels
                                          (right-hand side of `fresh_after_repair`)
@@ -568,6 +585,16 @@ def handle : List String → Option String
     let lr ← int? lr; let cr ← chan? cr; let lg ← int? lg; let cg ← chan? cg; let lb ← int? lb; let cb ← chan? cb
     if pixelsPerLine axes < 2 ∨ linesPerFrame axes < 2 ∨ qs.any (· > 3) then none
     else some (toString (stateAfter (.scan axes) iw [⟨lr, cr⟩, ⟨lg, cg⟩, ⟨lb, cb⟩] ObjState.fresh qs).off)
+  | ["c02.assigned", data, iw, shape] => do
+    let data ← intList? data; let iw ← natList? iw; let shape ← natList? shape
+    let prod := shape.foldl (· * ·) 1
+    if prod = 0 then none
+    else if data.length ≠ iw.length then some "ValueError"
+    else if iw.count 2 = 0 then some "IndexError"
+    else
+      let px := (List.range (iw.count 2)).map (assignedSum data iw)
+      let m := roundUp px.length prod
+      some (showNatList ((m / prod) :: shape) ++ " " ++ showIntList (padTo px m))
   | ["c02.regwave", lead, k, d, p, n] => do
     let lead ← nat? lead; let k ← nat? k; let d ← nat? d; let p ← nat? p; let n ← nat? n
     let iw := regWave lead k d p n
